@@ -21,9 +21,9 @@ META = {
     "rule": "worlds = argparse outcome (valid / refused: unknown option, include+exclude, missing operand, bad --max-workers, bad choice, "
             "no directory / early exit: --help --version --list --describe) x --max-workers <= 0 x non-integer path:line x directory "
             "exists x SARIF (none|one|two of one tool|missing|malformed: bad JSON, no runs, a directory) x missing file per result option "
-            "(sonar issues, hotspots, defectdojo, contrast) x AI env (unset / both empty / exactly one of key, endpoint for Azure OpenAI or Llama) x "
+            "(sonar issues, hotspots, defectdojo, contrast) x a mode-000 file handed to semgrep (semgrep-detected codemod selected) x AI env (unset / both empty / exactly one of key, endpoint for Azure OpenAI or Llama) x "
             "shape of the target tree (one file, empty, only sub-directories, only non-Python files, only default-excluded files, a symlinked file only, "
-            "a dangling symlink, undecodable/unreadable files, a 40-level deep tree, 25 files) x kind of run (plain, --dry-run, SAST result files given, "
+            "a dangling symlink, undecodable/unparsable files, a 40-level deep tree, 25 files) x kind of run (plain, --dry-run, SAST result files given, "
             "--codemod-include selecting nothing; thorough: default codemods) x --output (none / writable / missing parent / a directory / parent is a file / read-only place / /dev/full / write failing half-way by injection); single deviations from the "
             "nominal run exhaustively, then pairs and random combinations; each realised by a real CLI run; non-trivial = not the nominal world",
     "trusted": [
@@ -42,14 +42,15 @@ META = {
 IMPORTS = "From CM Require Import Harness.RunBase Harness.C20_run Model.Exit Spec.ExitSpec Proofs.ExitFacts.\n"
 
 FIELDS = ["argparse", "bad_workers", "bad_line", "dir_exists", "sarif", "miss_issues", "miss_hotspots", "miss_dd", "miss_contrast",
-          "ai_consistent", "output", "write_ok", "write_partial"]
+          "ai_consistent", "output", "write_ok", "write_partial", "unreadable_target"]
 NOMINAL = dict(argparse=0, bad_workers=0, bad_line=0, dir_exists=1, sarif=0, miss_issues=0, miss_hotspots=0, miss_dd=0, miss_contrast=0,
-               ai_consistent=1, output=1, write_ok=1, write_partial=0)
+               ai_consistent=1, output=1, write_ok=1, write_partial=0, unreadable_target=0)
 DOMAIN = dict(argparse=[0, 1, 2], sarif=[0, 1, 2, 3])
 
 TINY = {"a.py": "x = set([1, 2])\n"}
 SARIF_SEMGREP = {"version": "2.1.0", "runs": [{"tool": {"driver": {"name": "Semgrep OSS"}}, "results": []}]}
 TRIVIAL = ["--codemod-include", "pixee:python/use-set-literal"]
+SEMGREP_DETECTED = ["--codemod-include", "pixee:python/secure-random"]     # its detector hands the files to `semgrep scan`
 
 
 def code_of(w):
@@ -86,6 +87,8 @@ def classify(w, obs, err, attrib):
                 return "kf_exit_nonpositive_max_workers_unvalidated"
             if w["sarif"] == 3 and exc in SARIF_EXC and ("sarifs.py" in err or "detect_sarif_tools" in err):
                 return "kf_exit_crash_malformed_sarif"
+            if w["unreadable_target"] and exc == "CalledProcessError" and "semgrep" in err and "returned non-zero exit status 2" in err:
+                return "kf_exit_crash_semgrep_unreadable_target"
         return f"kf_exit_crash_other_{exc}"
     if attrib["attrib_line_ok"]:
         return "kf_exit_noninteger_line_unvalidated"
@@ -133,17 +136,23 @@ class Realiser:
         if isinstance(variant, str) and variant.startswith("tree:"):
             _, shape, mode = variant.split(":")
             variant = None
-        elif not minimal and not w["bad_line"] and w["dir_exists"] and self.rng.random() < 0.35:
+        elif not minimal and not w["bad_line"] and not w["unreadable_target"] and w["dir_exists"] and self.rng.random() < 0.35:
             # the status does not depend on what the target tree contains (a non-integer `path:line` item only bites
             # when its path matches a processed file, so those worlds keep the one-file tree)
             shape, mode = self.rng.choice(list(TREE_SHAPES)), self.rng.choice(RUN_MODES)
         build_tree(proj, d, shape)
+        if w["unreadable_target"] and w["dir_exists"]:
+            # a file without the owner-read bit (semgrep looks at the mode bits, so this holds for root too)
+            core.write_tree(proj, {"locked.py": "import random\nrandom.random()\n"})
+            os.chmod(proj / "locked.py", 0)
+            label.append("a file with mode 000 in the tree, semgrep-detected codemod selected")
         if shape != "one_file":
             label.append(f"target tree: {shape}")
         target = str(proj) if w["dir_exists"] else str(d / "no_such_dir")
         if not w["dir_exists"]:
             label.append("target directory missing")
-        argv = [target] + (["--codemod-include", "pixee:python/no-such-codemod,acme:*"] if mode == "select_nothing" else TRIVIAL)
+        argv = [target] + (["--codemod-include", "pixee:python/no-such-codemod,acme:*"] if mode == "select_nothing"
+                           else SEMGREP_DETECTED if w["unreadable_target"] else TRIVIAL)
         if mode != "plain":
             label.append(f"run mode: {mode}")
         if mode == "dry_run":
@@ -228,11 +237,15 @@ class Realiser:
                         out = ro / "report.json"
                 label.append(f"--output unwritable ({kind})")
             argv += ["--output", str(out)]
-        # valid extras (repeated options, flags)
+        # valid extras (repeated options, flags); a repeated option REPLACES the earlier value, so the extras that would
+        # undo a world's realisation (the non-integer item, the semgrep-detected codemod, the file list) are left out
         if rng.random() < 0.4:
-            argv += rng.choice([["--dry-run"], ["--verbose"], ["--no-dry-run"], ["--log-format", "json"], ["--project-name", "p"],
-                                ["--codemod-include", "pixee:python/use-set-literal"], ["--output-format", "codetf"],
-                                ["--path-include", "*.py", "--path-include", "a.py"]][:7 if w["bad_line"] else 8])   # a repeated option replaces the earlier value
+            extras = [["--dry-run"], ["--verbose"], ["--no-dry-run"], ["--log-format", "json"], ["--project-name", "p"], ["--output-format", "codetf"]]
+            if not w["unreadable_target"] and mode != "select_nothing":
+                extras.append(["--codemod-include", "pixee:python/use-set-literal"])
+            if not w["unreadable_target"] and not w["bad_line"]:
+                extras.append(["--path-include", "*.py", "--path-include", "a.py"])
+            argv += rng.choice(extras)
         # argparse outcome
         if w["argparse"] == 1:
             kind = variant if variant in PARSE_ERRORS else rng.choice(list(PARSE_ERRORS))
@@ -285,9 +298,9 @@ def _t_dangling_symlink(proj, d):
 
 
 def _t_unreadable(proj, d):
-    (proj / "b.py").write_bytes(b"\xff\xfe\x00x = set([1, 2])\n")     # not decodable (holds for root too)
-    core.write_tree(proj, {"locked.py": "x = set([1, 2])\n"})
-    os.chmod(proj / "locked.py", 0)                                       # unreadable unless root
+    (proj / "b.py").write_bytes(b"\xff\xfe\x00x = set([1, 2])\n")     # not decodable
+    core.write_tree(proj, {"c.py": "x = set([1, 2]\n"})                     # not parsable
+    # (a file without the read permission bit is the world field unreadable_target: semgrep refuses it)
 
 
 def _t_deep(proj, d):
@@ -437,7 +450,8 @@ def gen_worlds(ctx):
                    ("dir_exists", 0, "sarif", 3), ("sarif", 2, "miss_hotspots", 1), ("argparse", 2, "dir_exists", 0),
                    ("argparse", 1, "ai_consistent", 0), ("bad_workers", 1, "dir_exists", 0), ("miss_contrast", 1, "ai_consistent", 0),
                    ("miss_contrast", 1, "write_ok", 0), ("bad_line", 1, "write_ok", 0), ("output", 0, "ai_consistent", 0),
-                   ("write_ok", 0, "write_partial", 1), ("bad_line", 1, "dir_exists", 0), ("bad_line", 1, "miss_issues", 1)]
+                   ("write_ok", 0, "write_partial", 1), ("bad_line", 1, "dir_exists", 0), ("bad_line", 1, "miss_issues", 1),
+                   ("unreadable_target", 1, "miss_dd", 1), ("unreadable_target", 1, "write_ok", 0)]
     for a, va, b, vb in order_pairs:
         w = dict(NOMINAL)
         w[a], w[b] = va, vb
